@@ -201,7 +201,11 @@ def _chunk_body(cid, pairs):
     for idx, spec in pairs:
         try:
             scen = _MODULE.make_scenario(spec, _SEED, idx)
-            res = _MODULE.run_scenario(scen)
+            dbg = os.environ.get('VERIF_DEBUG_IDX')
+            res = _MODULE.run_scenario(scen, keep_events=True) if dbg and int(dbg) == idx else _MODULE.run_scenario(scen)
+            if dbg and int(dbg) == idx:
+                with open('/tmp/verif-debug-%d-%d.json' % (idx, os.getpid()), 'w') as f:
+                    json.dump({'digest': res.digest, 'events': res.events, 'reach': res.reach, 'obs': res.obs}, f, indent=0)
             p = res.pack()
             p['idx'] = idx
             if res.viol or (idx % 997 == 0):
